@@ -402,6 +402,111 @@ def r5_mirror(ctx):
     ctx.extra["mirror_pairs_not_judged"] = unjudged
 
 
+def colour_switches(f, cfg, ex):
+    """[(switch block, white successor, black successor)] for two-way switches on the side to move"""
+    out = []
+    for b in sorted(cfg.reach):
+        t = f["blocks"][b]["term"]
+        if t["k"] != "switch" or len(t["targets"]) != 1:
+            continue
+        d = ex.operand(t["discr"])
+        cands = [d]
+        if d[0] == "local":
+            cands.append(ex.initial(d[1]))
+        hit = False
+        for c in cands:
+            if c[0] == "call" and c[1] == BB + "is_white_turn":
+                hit = True
+            if c[0] == "bin" and c[1] == "Eq" and any(x[0] == "c" and x[1] == 0 and (x[3] or "").endswith("WHITE") for x in (c[2], c[3])):
+                hit = True
+        if hit:
+            out.append((b, t["otherwise"], t["targets"][0][1]))
+    return out
+
+
+def r7_colour_relative_constants(ctx):
+    rid = "C01.R7"
+    ctx.rule(rid, "a rank mask that is not its own vertical mirror image (RANK_7, RANK_2, a promotion or double-push rank) is colour relative: in the move generators it is used only inside an arm of a branch on the side to move whose other arm uses the mirrored rank, or together with its mirror image", floor=4)
+    from ..callgraph import CallGraph
+    prog = ctx.prog
+    cg = CallGraph(prog)
+    gens = [k for k in (BB + "generate_pseudo_legal_moves_with_buffer", BB + "generate_pseudo_legal_non_quiescent_moves_with_buffer", BB + "generate_pseudo_legal_moves", BB + "generate_pawn_attacks") if k in prog.fns]
+    if len(gens) < 2:
+        ctx.lost(rid, "the pseudo-legal generators")
+        return
+    reach, _ = cg.reachable(gens)
+
+    def rankset(c):
+        if not isinstance(c, int) or isinstance(c, bool) or c <= 0 or c >= (1 << 64) - 1:
+            return False
+        return all(((c >> (8 * i)) & 0xFF) in (0, 0xFF) for i in range(8))
+
+    def consts_of(blk):
+        out = []
+        for st in blk["stmts"]:
+            for a in st["rv"].get("a", []):
+                if a.get("k") == "const" and rankset(a.get("v")):
+                    out.append((a["v"], st["line"]))
+        t = blk["term"]
+        if t["k"] == "call":
+            for a in t["args"]:
+                if a.get("k") == "const" and rankset(a.get("v")):
+                    out.append((a["v"], t["line"]))
+        return out
+
+    n = 0
+    for k in sorted(reach):
+        f = prog.fns.get(k)
+        if f is None or f["crate"] != "inkayaku_board" or f.get("test"):
+            continue
+        used = [(bi, consts_of(blk)) for bi, blk in enumerate(f["blocks"]) if not blk["cleanup"]]
+        used = [(bi, cs) for bi, cs in used if cs]
+        if not used:
+            continue
+        cfg, ex = Cfg(f), Exprs(f)
+        sw = colour_switches(f, cfg, ex)
+        outside = []       # (block, mask, line) not inside any colour arm
+        for bi, cs in used:
+            deps = cfg.control_deps_transitive(bi)
+            arms = [(a, mine, other) for (a, wb, bb_) in sw for mine, other in ((wb, bb_), (bb_, wb)) if (a, mine) in deps]
+            union = 0
+            for v, _ in cs:
+                union |= v
+            if not arms:
+                outside.append((bi, union, cs[0][1]))
+                continue
+            if G.bswap64(union) == union:
+                continue
+            n += 1
+            ok, why = False, ""
+            for (a, mine, other) in arms:
+                region = [x for x in sorted(cfg.reach) if (a, other) in cfg.control_deps_transitive(x)]
+                other_union = 0
+                for x in region:
+                    for v, _ in consts_of(f["blocks"][x]):
+                        other_union |= v
+                if other_union & G.bswap64(union) == G.bswap64(union):
+                    ok = True
+                else:
+                    why = "the other colour's arm does not use the mirrored rank %#x" % G.bswap64(union)
+            ctx.ob(rid, "%s|%#x" % (k.rsplit("::", 1)[-1], union), ok,
+                   "" if ok else "%s uses the rank mask %#x inside a branch on the side to move, but %s" % (f["display"], union, why),
+                   ctx.where(f, cs[0][1]), sample={"function": k.rsplit("::", 1)[-1], "mask": hex(union)})
+        if outside:
+            total = 0
+            for _, u, _ in outside:
+                total |= u
+            if total and G.bswap64(total) != total or any(G.bswap64(u) != u for _, u, _ in outside):
+                n += 1
+                ok = G.bswap64(total) == total
+                lonely = [(u, line) for _, u, line in outside if G.bswap64(u) != u and not (total & G.bswap64(u) == G.bswap64(u))]
+                ctx.ob(rid, "%s|outside-colour-branches|%#x" % (k.rsplit("::", 1)[-1], total), ok,
+                       "" if ok else "%s uses the rank mask(s) %s outside any branch on the side to move and without the mirrored rank: the mask means a different rank for white and for black, so one colour gets the other colour's rank (a promotion / double-push / capture-only filter silently loses that colour's moves)" % (f["display"], [hex(u) for u, _ in lonely]),
+                       ctx.where(f, (lonely or [(0, outside[0][2])])[0][1]), sample={"function": k.rsplit("::", 1)[-1], "masks": [hex(u) for _, u, _ in outside]})
+    if n == 0:
+        ctx.lost(rid, "no colour-relative rank mask found in the generators")
+
+
 def r6_legal_filter(ctx):
     rid = "C01.R6"
     ctx.rule(rid, "generate_legal_moves = the pseudo-legal moves filtered by is_move_legal on every accepting path of its filter; is_any_move_legal tests is_move_legal; is_move_legal = make, is_valid, unmake", floor=3)
@@ -495,6 +600,7 @@ def r6_legal_filter(ctx):
 
 def run(ctx):
     r6_legal_filter(ctx)
+    r7_colour_relative_constants(ctx)
     # the castling rights that castle_moves trusts are maintained by make_move's bookkeeping (shared with C02.R5)
     try:
         from . import movefields as MF_
